@@ -504,15 +504,24 @@ func firstLine(s string) string {
 // so that the key is stable under line shifts).
 func panicSite(stack string) string {
 	lines := strings.Split(stack, "\n")
+	var frames []string
 	for _, l := range lines {
 		if strings.HasPrefix(l, "github.com/creachadair/jrpc2") && !strings.Contains(l, "zzverif") {
 			if i := strings.LastIndex(l, "("); i > 0 {
 				l = l[:i]
 			}
-			return strings.TrimPrefix(l, "github.com/creachadair/jrpc2")
+			l = strings.TrimPrefix(l, "github.com/creachadair/jrpc2")
+			l = strings.TrimPrefix(l, ".")
+			frames = append(frames, l)
+			if len(frames) == 3 {
+				break
+			}
 		}
 	}
-	return "?"
+	if len(frames) == 0 {
+		return "?"
+	}
+	return strings.Join(frames, " < ")
 }
 
 var _ = jrpc2.Version
